@@ -115,7 +115,7 @@ Section Leaf.
   Lemma sound_binary : sound_at KBinary KBinary.
   Proof.
     intros v pv hc n H. simpl in H. destruct v; try discriminate.
-    destruct (all_ascii s && b64_ok s); try discriminate. inversion H; subst. split; [auto|split; [exact I|]]; auto.
+    destruct (all_ascii s && (if vr_b64_strict vr then b64_strict s else b64_ok s)); try discriminate. inversion H; subst. split; [auto|split; [exact I|]]; auto.
   Qed.
 
   (* ---- selectors ---- *)
